@@ -648,3 +648,56 @@ pub fn gen_loopfam(t: &mut Tape, o: LoopOpts) -> Scenario {
     }
     g.finish()
 }
+
+/// C10, targeted: a loop whose body reads its state and contains a nested loop with a shuffle, on
+/// several hosts, with slow links / stalled threads - the inner body reads the *outer* state
+pub fn gen_nested_state(t: &mut Tape) -> Scenario {
+    let mut p = Profile::pipe();
+    p.family = "loop-nested-state";
+    p.small_batches = true;
+    let mut g = Gen::new(t, p);
+    let nh = 2 + g.t.draw(3) as usize;
+    g.layout = Layout::Remote((0..nh).map(|_| 1 + g.t.draw(2) as u64).collect());
+    let n = [5usize, 20, 60][g.t.draw(3) as usize];
+    let s = g.add_source(true, n, 7);
+    let inner = LoopSpec {
+        iterate: g.t.draw(2) == 1,
+        rounds: 1 + g.t.draw(3) as usize,
+        stop_mod: 0,
+        stop_rem: 0,
+        agg: AggFn::Sum,
+        body: vec![Step::Un(0, UnOp::Shuffle), Step::Un(1, UnOp::Map(MapFn::Add(1)))],
+        body_out: 2,
+        use_state: false,
+        cond_sleep_us: 0,
+    };
+    let inner_it = inner.iterate;
+    let mut body = vec![Step::Loop(0, inner)];
+    let mut cur = 1;
+    if inner_it {
+        body.push(Step::Bin(1, 2, BinOp::Merge));
+        cur = 3;
+    }
+    body.push(Step::Un(cur, UnOp::Shuffle));
+    cur += 1;
+    let spec = LoopSpec {
+        iterate: false,
+        rounds: 2 + g.t.draw(3) as usize,
+        stop_mod: 0,
+        stop_rem: 0,
+        agg: [AggFn::Sum, AggFn::Count, AggFn::Xor][g.t.draw(3) as usize],
+        body,
+        body_out: cur,
+        use_state: true,
+        cond_sleep_us: [0u64, 200, 20_000][g.t.draw(3) as usize],
+    };
+    let a = g.attrs[s].take().unwrap();
+    g.steps.push(Step::Loop(s, spec));
+    g.attrs.push(Some(Attr { repl: Repl::One, depth: a.depth, len: 1, keys: 1 }));
+    let mut sc = g.finish();
+    // slow links and stalled threads are what separates the data path from the state feedback
+    for f in ["stall", "weight", "tcp_latency", "exec_cost"] {
+        sc.knobs.rates.entry(f.to_string()).or_insert(150);
+    }
+    sc
+}
